@@ -306,3 +306,156 @@ def run_rest(check, ctx, cipher_self, MODELS):
                 models=mm, method_models=meth, rule="K",
                 what="Encap: enc = SerializePublicKey(pkE), kem_context = enc || pkRm [|| pkSm]; returns (shared_secret, enc)",
                 cite="RFC 9180 4.1 Encap/AuthEncap"))
+
+
+def hpke_history_rows(check, repo):
+    """RFC 9180 5.2 as message histories: a sending and a receiving HPKE_Cipher with the same key and base nonce are
+    interpreted over a keyed stand-in AEAD (key stream and tag are functions of key, nonce, associated data and
+    ciphertext).  The sender seals a sequence of messages; the receiver then sees them in order, out of order,
+    replayed, modified, with other associated data and truncated.  Expected: in-order messages open to the plaintexts;
+    every other presentation raises ValueError and leaves the context able to open the next genuine message; message i
+    is protected under base_nonce xor I2OSP(i, Nn) - pairwise distinct nonces."""
+    import hashlib
+    from ..absint import Interp
+    from ..absstate import State
+    from ..absval import UNK, AObj
+    mod = repo.module(HP)
+    cls = repo.cls(mod, "HPKE_Cipher")
+
+    def ks(key, nonce, n):
+        out, c = b"", 0
+        while len(out) < n:
+            out += hashlib.sha256(b"KS|" + key + b"|" + nonce + c.to_bytes(4, "big")).digest()
+            c += 1
+        return out[:n]
+
+    def tag(key, nonce, aad, ct):
+        return hashlib.sha256(b"TAG|" + key + b"|" + nonce + b"|" + len(aad).to_bytes(8, "big") + aad + ct).digest()[:16]
+    wrong = []
+    nsteps = 0
+    for aead_name, aead_val, klen in (("AES128_GCM", 1, 16), ("CHACHA20_POLY1305", 3, 32)):
+        key = bytes(range(0x20, 0x20 + klen))
+        base = bytes(range(0xB0, 0xBC))
+        nonces = []
+
+        def mk_cipher(i, st, k_, n_):
+            o = i.new_obj(st, label="aead")
+            st.heap[o.ident].update({"kind": "aead", "key": bytes(k_), "nonce": bytes(n_), "aad": b""})
+            return o
+
+        def m_aes_new(i, a, kw, st, node):
+            k_, n_ = (a[0] if a else kw.get("key")), kw.get("nonce")
+            if not isinstance(k_, (bytes, bytearray)) or not isinstance(n_, (bytes, bytearray)) or kw.get("mac_len", 16) != 16:
+                return UNK
+            nonces.append(bytes(n_))
+            return mk_cipher(i, st, k_, n_)
+
+        def m_ccp_new(i, a, kw, st, node):
+            k_, n_ = kw.get("key"), kw.get("nonce")
+            if not isinstance(k_, (bytes, bytearray)) or not isinstance(n_, (bytes, bytearray)):
+                return UNK
+            nonces.append(bytes(n_))
+            return mk_cipher(i, st, k_, n_)
+
+        def mm_update(i, base_, a, kw, st, node):
+            h = st.heap.get(getattr(base_, "ident", -1), {})
+            if h.get("kind") != "aead" or not a or not isinstance(a[0], (bytes, bytearray)):
+                return UNK
+            h["aad"] += bytes(a[0])
+            return base_
+
+        def mm_ead(i, base_, a, kw, st, node):
+            h = st.heap.get(getattr(base_, "ident", -1), {})
+            if h.get("kind") != "aead" or not a or not isinstance(a[0], (bytes, bytearray)):
+                return UNK
+            ct = bytes(x ^ y for x, y in zip(a[0], ks(h["key"], h["nonce"], len(a[0]))))
+            return (ct, tag(h["key"], h["nonce"], h["aad"], ct))
+
+        def mm_dav(i, base_, a, kw, st, node):
+            h = st.heap.get(getattr(base_, "ident", -1), {})
+            if h.get("kind") != "aead" or len(a) < 2 or not all(isinstance(x, (bytes, bytearray)) for x in a[:2]):
+                return UNK
+            if bytes(a[1]) != tag(h["key"], h["nonce"], h["aad"], bytes(a[0])):
+                i._diverged = i.do_raise("ValueError", st, node)
+                return UNK
+            return bytes(x ^ y for x, y in zip(a[0], ks(h["key"], h["nonce"], len(a[0]))))
+        it = Interp(repo, max_depth=4, extra_models={"Crypto.Cipher.AES.new": m_aes_new, "Crypto.Cipher.ChaCha20_Poly1305.new": m_ccp_new,
+                                                     "Crypto.Util.strxor.strxor": lambda i, a, kw, st, node: bytes(x ^ y for x, y in zip(a[0], a[1])) if len(a) >= 2 and all(isinstance(x, (bytes, bytearray)) for x in a[:2]) and len(a[0]) == len(a[1]) else UNK},
+                    method_models={"update": mm_update, "encrypt_and_digest": mm_ead, "decrypt_and_verify": mm_dav})
+        st = State()
+        def ctx(encrypt):
+            o = it.new_obj(st, mod, cls, havoc=False)
+            st.heap[o.ident].update({"_encrypt": encrypt, "_Nt": 16, "_Nn": 12, "_Nk": klen, "_Nh": 32, "_aead_id": aead_val, "_base_nonce": base, "_key": key,
+                                     "_sequence": 0, "_max_sequence": (1 << 96) - 1})
+            return o
+        S, R = ctx(True), ctx(False)
+        msgs = [(b"first message", b"aad-1"), (b"", None), (b"third " * 9, b"a" * 33), (b"4", b""), (b"fifth", b"aad-5")]
+        cur = st
+        sealed = []
+        ok = True
+        for (m_, a_) in msgs:
+            cur.frames = [{}]
+            res = it.run(mod, repo.func(mod, "HPKE_Cipher.seal"), {"plaintext": m_, "auth_data": a_}, self_obj=S, state=cur)
+            nsteps += 1
+            r = res.returns()
+            if len(r) != 1 or res.raises() or not isinstance(r[0].value, (bytes, bytearray)):
+                wrong.append("%s: seal() of message %d: %d exits, raises %s" % (aead_name, len(sealed) + 1, len(r), res.raise_classes()))
+                ok = False
+                break
+            cur = r[0].state
+            sealed.append(bytes(r[0].value))
+        if not ok:
+            continue
+        want_nonces = [bytes(x ^ y for x, y in zip(base, j.to_bytes(12, "big"))) for j in range(len(msgs))]
+        if nonces != want_nonces:
+            wrong.append("%s: the sender's nonces are %s.., RFC 9180 5.2 gives base_nonce xor seq" % (aead_name, [n.hex()[-6:] for n in nonces[:3]]))
+        for j, ((m_, a_), c_) in enumerate(zip(msgs, sealed)):
+            n_ = want_nonces[j]
+            ct = bytes(x ^ y for x, y in zip(m_, ks(key, n_, len(m_))))
+            if c_ != ct + tag(key, n_, a_ or b"", ct):
+                wrong.append("%s: message %d is not AEAD(key, base_nonce xor %d, aad, pt) || tag" % (aead_name, j + 1, j))
+        # the receiver: (presented ciphertext, aad, expected plaintext or None for ValueError)
+        def flip(b, k=0):
+            return b[:k] + bytes([b[k] ^ 1]) + b[k + 1:]
+        script = [
+            (sealed[1], msgs[1][1], None, "message 2 before message 1 (out of order)"),
+            (sealed[0], b"other", None, "message 1 with other associated data"),
+            (flip(sealed[0]), msgs[0][1], None, "message 1 with a modified first byte"),
+            (sealed[0][:-1], msgs[0][1], None, "message 1 truncated by one byte"),
+            (sealed[0][:15], msgs[0][1], None, "15 bytes (shorter than a tag)"),
+            (sealed[0], msgs[0][1], msgs[0][0], "message 1"),
+            (sealed[0], msgs[0][1], None, "message 1 again (replay)"),
+            (sealed[2], msgs[2][1], None, "message 3 before message 2"),
+            (sealed[1], msgs[1][1], msgs[1][0], "message 2"),
+            (flip(sealed[2], len(sealed[2]) - 1), msgs[2][1], None, "message 3 with a modified tag"),
+            (sealed[2], None, None, "message 3 without its associated data"),
+            (sealed[2], msgs[2][1], msgs[2][0], "message 3"),
+            (sealed[3] + b"\x00", msgs[3][1], None, "message 4 extended by one byte"),
+            (sealed[4], msgs[4][1], None, "message 5 before message 4"),
+            (sealed[3], msgs[3][1], msgs[3][0], "message 4"),
+            (sealed[4], msgs[4][1], msgs[4][0], "message 5"),
+            (sealed[4], msgs[4][1], None, "message 5 again"),
+        ]
+        for (c_, a_, want, what) in script:
+            cur.frames = [{}]
+            res = it.run(mod, repo.func(mod, "HPKE_Cipher.unseal"), {"ciphertext": c_, "auth_data": a_}, self_obj=R, state=cur)
+            nsteps += 1
+            r = res.returns()
+            if want is None:
+                exits = [o for o in res.raises() if o.state is not None]
+                if r or not res.raises() or any("ValueError" not in it.exc_mro(o.exc, mod) for o in res.raises()):
+                    wrong.append("%s: %s is %s" % (aead_name, what, "accepted" if r else "refused with %s" % res.raise_classes()))
+                    break
+                if not exits:
+                    wrong.append("%s: %s: no state after the refusal" % (aead_name, what))
+                    break
+                cur = exits[0].state
+            else:
+                if len(r) != 1 or res.raises() or not isinstance(r[0].value, (bytes, bytearray)) or bytes(r[0].value) != want:
+                    wrong.append("%s: genuine %s (after the refusals before it) %s" % (aead_name, what, "is refused with %s" % res.raise_classes() if not r else "opens to another plaintext"))
+                    break
+                cur = r[0].state
+    fn = repo.func(mod, "HPKE_Cipher.unseal")
+    check.ob("N", "N|hpke.histories", not wrong, mod.path, fn.lineno,
+             extracted=("; ".join(wrong[:3])) if wrong else "%d steps for 2 AEADs: 5 sealed messages carry nonces base xor 0..4; the receiver opens them in order and refuses reordered, replayed, modified, truncated, extended messages and other associated data with ValueError, each time staying able to open the next genuine message" % nsteps,
+             expected="RFC 9180 5.2: ContextS.Seal / ContextR.Open with ComputeNonce(seq); a failed Open does not advance the sequence number")
